@@ -41,6 +41,9 @@ def main(prop: str, tier: str) -> int:
         except ImportError:
             pass
     if prop == 'C05':
+        from checks import inserted_comments
+        add_part(rep, 'inserted_comments_between_fields', inserted_comments.run(rep, tier, {'tree'}))
+    if prop == 'C05':
         from checks import treecheck
         add_part(rep, 'tree_tla_cross_check', treecheck.run(rep, tier))
     if prop in ('C05', 'C06'):
